@@ -242,6 +242,10 @@ template <typename T> static void run_pair(int run, int kind, rng& g, bool dists
         if ((k == proj_nan || k == proj_inf) && !dists) k = f_pinf;
         p.kind.push_back(k);
     }
+    // VEGAS with distributions: every fifth call hands max / 1.5 to the distributions wherever the point weight is at least two (an ordinary fill
+    // elsewhere) - often enough for every seed to meet such a point in every run; the integrands that return a wider type likewise
+    if (kind == 1 && dists) for (std::size_t i = 3; i < len; i += 5) if (p.kind[i] == none) p.kind[i] = proj_big;
+    if (kind == 0 || (kind == 1 && !dists)) for (std::size_t i = 4; i < len; i += 9) if (p.kind[i] == none) p.kind[i] = f_wide;
     if (run % 5 == 0) for (auto& k : p.kind) if (k == none && g.below(2)) k = f_nan; // heavy poisoning
     if (run % 7 == 0) for (auto& k : p.kind) k = f_ninf;                               // everything non-finite
     std::vector<std::size_t> iters{50, 50, 50, 50};
